@@ -1419,10 +1419,18 @@ def _mp_visit_worker(ready_queue, done_event, callback):
     from queue import Empty
 
     while True:
+        # Sample the shutdown flag *before* the blocking receive. The flag is only
+        # raised once every item has been flushed to the queue, so if it was up
+        # already and the receive still times out, the queue is truly drained.
+        # Testing it after the timeout instead would race with a producer that
+        # enqueues its last items and raises the flag in between, and those
+        # items would never be processed.
+        finishing = done_event.is_set()
+
         try:
             args = ready_queue.get(True, timeout=1)
         except Empty:
-            if done_event.is_set():
+            if finishing:
                 break
             continue
 
